@@ -1,6 +1,7 @@
 package rules
 
 import (
+	"go/types"
 	"go/token"
 	"sort"
 	"strings"
@@ -333,6 +334,10 @@ func c20(w *core.World, r *core.Report) {
 
 	r.Rule("R20.9", "a RESTORE error is classified as 'key exists' only by the published BUSYKEY texts", 2)
 	ruleBusyKeyTexts(w, r)
+	r.Rule("R20.10", "bidirectional RESTORE carries REPLACE exactly when the policy is replace, whatever the target version", 1)
+	ruleBisyncRestoreReplace(w, r)
+	r.Rule("R20.11", "all chunks of one key reach the worker that made the key-exists decision: the distributor picks the worker of a keyed entry from the key alone", 1)
+	ruleChunksSameWorker(w, r)
 	r.Rule("R20.8", "bidirectional replay: a BUSYKEY reply to RESTORE is tolerated only under the ignore policy", 1)
 	if g := fn(w, r, "(*syncer.RedisOutput).validateBisyncRdbExecReplies"); g != nil {
 		// the loop over the EXEC replies: the one that asks whether a reply is an error reply
@@ -633,4 +638,209 @@ func constStringsOf(w *core.World, v ssa.Value, allowed map[string]bool) bool {
 		}
 	}
 	return true
+}
+
+
+// ---------------------------------------------------------------- R20.10 RESTORE … REPLACE in the bidirectional builder
+
+// ruleBisyncRestoreReplace: the bidirectional path does not delete the old key
+// first; under the replace policy the RESTORE it builds must carry REPLACE on
+// every path (a BUSYKEY answer is tolerated only under ignore, so a missing
+// REPLACE aborts the full sync and leaves the old value), and under any other
+// policy it must not carry it.
+func ruleBisyncRestoreReplace(w *core.World, r *core.Report) {
+	f := fn(w, r, "syncer.captureBisyncRdbRestoreCommand")
+	if f == nil {
+		return
+	}
+	isPolicyTest := func(p *core.Path, fct core.Fact) (isTest, replace bool) {
+		c, ok := core.AsCmp(fct.Cond, fct.Val)
+		if !ok || (c.Op != token.EQL && c.Op != token.NEQ) {
+			return false, false
+		}
+		x, y := p.Resolve(c.X), p.Resolve(c.Y)
+		if _, isC := x.(*ssa.Const); isC {
+			x, y = y, x
+		}
+		str, isStr := core.ConstString(y)
+		if !isStr || !strings.EqualFold(str, "replace") {
+			return false, false
+		}
+		if _, isPar := x.(*ssa.Parameter); !isPar {
+			return false, false
+		}
+		return true, c.Op == token.EQL
+	}
+	bad := ""
+	var pos token.Pos = f.Pos()
+	n, nRep := 0, 0
+	okEnum := core.EnumPathsN(f.Blocks[0], 0, 100000, core.Unroll, func(p *core.Path) {
+		ret, ok := p.End.(*ssa.Return)
+		if !ok || bad != "" || ret.Parent() != f || len(ret.Results) != 2 {
+			return
+		}
+		if core.IsNilConst(p.Resolve(ret.Results[0])) {
+			return // nothing built
+		}
+		n++
+		appended := false
+		for _, in := range p.Instrs {
+			c, isC := in.(*ssa.Call)
+			if !isC || !isBuiltin(c, "append") || len(c.Call.Args) != 2 {
+				continue
+			}
+			if el, ok := core.VariadicElems(c.Call.Args[1]); ok {
+				for _, e := range el {
+					if str, ok := core.ConstString(core.Unwrap(e)); ok && strings.EqualFold(str, "REPLACE") {
+						appended = true
+					}
+				}
+			}
+		}
+		known, replace := false, false
+		for _, fct := range p.Conds {
+			if isT, rep := isPolicyTest(p, fct); isT {
+				known, replace = true, rep
+			}
+		}
+		if appended {
+			nRep++
+		}
+		switch {
+		case appended && !(known && replace):
+			bad, pos = "RESTORE is given REPLACE on a path that has not established the replace policy: an existing key is overwritten under ignore/error", ret.Pos()
+		case !appended && !(known && !replace):
+			bad, pos = "RESTORE is built without REPLACE on a path where the policy may be replace (for instance for a target version the other modifiers are not sent to): the target answers BUSYKEY, which is tolerated only under ignore, so the full sync aborts and the old value stays", ret.Pos()
+		}
+	})
+	if !okEnum {
+		r.Undecided("captureBisyncRdbRestoreCommand/replace-iff-policy", f.Pos(), "too many paths")
+		return
+	}
+	r.Check(bad == "" && n > 0 && nRep > 0, "captureBisyncRdbRestoreCommand/replace-iff-policy", pos, "%s (paths building a RESTORE=%d, with REPLACE=%d)", bad, n, nRep)
+}
+
+// ---------------------------------------------------------------- R20.11 all chunks of one key reach the same worker
+
+// ruleChunksSameWorker: the key-exists decision (probe, DEL, the memo of an
+// ignored key) is kept per replay worker and made on the first chunk only.
+// The distributor must therefore choose the worker of an entry that has a key
+// from the key alone; a chunk that is sent round-robin reaches a worker that
+// knows nothing of the decision and merges it into the existing key (or races
+// with the first worker's DEL). Shared with C03 (chunks of one key are
+// appended in order only when one worker handles them).
+func ruleChunksSameWorker(w *core.World, r *core.Report) {
+	f := fn(w, r, "(*syncer.RedisOutput).sendRdb")
+	if f == nil {
+		return
+	}
+	isKeyLoad := func(v ssa.Value) bool {
+		return fieldNameOfLoad(core.Unwrap(v)) == "Key"
+	}
+	isEntryChan := func(t types.Type) bool {
+		ch, ok := t.Underlying().(*types.Chan)
+		return ok && strings.HasSuffix(core.TypeName(ch.Elem()), "BinEntry")
+	}
+	// the distributor: the function that receives entries from a channel and picks one of several worker channels
+	receivesEntries := func(g *ssa.Function) bool {
+		for _, in := range core.OwnInstrs(g) {
+			switch x := in.(type) {
+			case *ssa.UnOp:
+				if x.Op == token.ARROW && isEntryChan(x.X.Type()) {
+					return true
+				}
+			case *ssa.Select:
+				for _, st := range x.States {
+					if st.Dir == types.RecvOnly && isEntryChan(st.Chan.Type()) {
+						return true
+					}
+				}
+			}
+		}
+		return false
+	}
+	n := 0
+	for _, g := range core.DeepFuncs(f) {
+		if !receivesEntries(g) {
+			continue
+		}
+		for _, in := range core.OwnInstrs(g) {
+			ld, ok := in.(*ssa.UnOp)
+			if !ok || ld.Op != token.MUL || !isEntryChan(ld.Type()) {
+				continue
+			}
+			ia, ok := ld.X.(*ssa.IndexAddr)
+			if !ok {
+				continue
+			}
+			if _, isK := core.ConstInt(ia.Index); isK {
+				continue
+			}
+			{
+				// the choice of one of several worker channels for the entry just received
+				sel := in
+				n++
+				head := core.LoopHeadOf(sel.Block())
+				if head == nil {
+					r.Undecided("sendRdb/chunks-same-worker", sel.Pos(), "the distributor's loop was not found")
+					continue
+				}
+				bad := ""
+				paths := 0
+				okEnum := core.EnumPathsN(head, 0, 100000, 1, func(p *core.Path) {
+					on := false
+					for _, pi := range p.Instrs {
+						if pi == sel {
+							on = true
+						}
+					}
+					if !on || bad != "" {
+						return
+					}
+					paths++
+					idx := p.Resolve(ia.Index)
+					byKey := false
+					if b, isB := core.Unwrap(idx).(*ssa.BinOp); isB && b.Op == token.REM {
+						if c, isC := core.Unwrap(p.Resolve(b.X)).(*ssa.Call); isC && len(c.Call.Args) >= 1 && isKeyLoad(c.Call.Args[0]) {
+							byKey = true
+						}
+					}
+					if byKey {
+						return
+					}
+					noKey := false
+					for _, fct := range p.Conds {
+						c, ok := core.AsCmp(fct.Cond, fct.Val)
+						if !ok || !isLenZero(c) {
+							continue
+						}
+						lenCall, _ := core.Unwrap(c.X).(*ssa.Call)
+						if lenCall == nil {
+							lenCall, _ = core.Unwrap(c.Y).(*ssa.Call)
+						}
+						if lenCall == nil || !isKeyLoad(lenCall.Call.Args[0]) {
+							continue
+						}
+						// len(Key) <= 0, len(Key) == 0, 0 >= len(Key)
+						if _, isLenX := core.Unwrap(c.X).(*ssa.Call); isLenX {
+							noKey = c.Op == token.LEQ || c.Op == token.EQL || c.Op == token.LSS
+						} else {
+							noKey = c.Op == token.GEQ || c.Op == token.EQL || c.Op == token.GTR
+						}
+					}
+					if !noKey {
+						bad = "an entry that may carry a key is handed to a worker that is not chosen from the key: later chunks of a split value reach a worker that did not see the first chunk, so the key-exists decision (probe, DEL, ignored-key memo) made there does not apply to them"
+					}
+				})
+				if !okEnum {
+					r.Undecided("sendRdb/chunks-same-worker", sel.Pos(), "too many paths")
+					continue
+				}
+				r.Check(bad == "" && paths > 0, "sendRdb/chunks-same-worker", sel.Pos(), "%s (paths to the send=%d)", bad, paths)
+			}
+		}
+	}
+	if n == 0 {
+		r.Fail("sendRdb/chunks-same-worker", f.Pos(), "the distributor's send into the worker channels was not found")
+	}
 }
